@@ -16,7 +16,8 @@ RULE = ("E3: for each authentic base file (BF3 with 0/1/2 components, payload en
         "file path, appended suffixes {00, FF, 0000, 00x16, copy of last 16 bytes} / text lines, and EVERY single-bit change of the session key "
         "(BF3) or of the customer-key encryptor key (BEC2). Oracle: the reader raises, or returns exactly the original components (description, "
         "blob, declared length, flag) and session key. Distinct = distinct damaged inputs (identical results of different operators are merged); "
-        "non-trivial = the damaged input differs from the original.")
+        "non-trivial = the damaged input differs from the original."
+        " Added: fixture shape 'twins' (the same image twice, plain and encrypted) in BF3 and BEC2 framing - whatever a reader remembers about one copy must not vouch for the other.")
 ASSUMPTIONS = [
     "comments and the BEC2 auth-block list are outside the MACs by format design; differences there are counted "
     "(unauthenticated_header_differences) and not treated as violations",
@@ -40,6 +41,8 @@ def files(ctx):
             FX.bec2_fixture(ctx, "one", ("ecc",), k0),
             FX.bec2_fixture(ctx, "config", ("upd",), k1),
             FX.bec2_fixture(ctx, "one", ("cust", "upd"), k0),
+            FX.bf3_fixture(ctx, "twins", k1),
+            FX.bec2_fixture(ctx, "twins", ("cust",), k0),
         ]
         if not ctx.quick:
             fs += [
